@@ -316,6 +316,8 @@ class Lic:
                         init = fn.nodes[fn.strip_casts(d['init'])]
                         if init['k'] in ('IntegerLiteral', 'FloatingLiteral') and float(init['v']) == 0:
                             zero[d['d']] = []
+                        elif init['k'] == 'CallExpr' and (init.get('callee') or {}).get('q') == 'GeographicLib::Math::NaN':
+                            zero[d['d']] = []      # `real lon2x = Math::NaN();` is a placeholder just like `= 0`
         for i, n in fn.all_nodes():
             if n['k'] in ('BinaryOperator', 'CompoundAssignOperator') and n.get('op') in ASSIGN_OPS:
                 ln = fn.nodes[fn.strip(n['ch'][0])]
